@@ -301,6 +301,85 @@ fn check(c: &Case, ctx: &Ctx) -> Outcome {
     }
 }
 
+// ---- references longer than 65536 bases (the reference-free generators stay far below that)
+
+#[derive(Clone, Debug, Serialize, Deserialize)]
+pub struct LargeCase {
+    pub k_sel: u8,
+    pub rc: bool,
+    pub content_seed: u64,
+    /// first contig length = 65_300 + extra (crosses 2^16 in most cases)
+    pub extra: u16,
+    pub second_len: u16,
+    /// substitutions in the sample: (position selector over the concatenated reference, base)
+    pub snps: Vec<(u32, u8)>,
+    pub ambig_mask: bool,
+    pub repeat_mask: bool,
+}
+
+pub fn large_strategy() -> BoxedStrategy<LargeCase> {
+    (0u8..4, any::<bool>(), any::<u64>(), 0u16..2000, 20u16..600, proptest::collection::vec((any::<u32>(), 0u8..4), 1..12), prop::bool::weighted(0.3), prop::bool::weighted(0.3))
+        .prop_map(|(k_sel, rc, content_seed, extra, second_len, snps, ambig_mask, repeat_mask)| LargeCase { k_sel, rc, content_seed, extra, second_len, snps, ambig_mask, repeat_mask })
+        .boxed()
+}
+
+pub fn large_materialise(c: &LargeCase) -> (Case, Mat) {
+    let k = [15usize, 17, 31, 33][c.k_sel as usize % 4];
+    let mut st = c.content_seed;
+    let mut next = || {
+        st = st.wrapping_add(0x9E37_79B9_7F4A_7C15);
+        crate::engine::splitmix64(st)
+    };
+    let l1 = 65_300 + c.extra as usize;
+    let c1: Vec<u8> = (0..l1).map(|_| model::BASES[(next() & 3) as usize]).collect();
+    let c2: Vec<u8> = (0..c.second_len as usize).map(|_| model::BASES[(next() & 3) as usize]).collect();
+    let reference = vec![c1, c2];
+    let total = l1 + c.second_len as usize;
+    // two samples: one identical to the reference except for the SNPs, one with half of them
+    let mut s0 = reference.clone();
+    let mut s1 = reference.clone();
+    for (i, (ps, b)) in c.snps.iter().enumerate() {
+        // half of the selectors are concentrated around position 65536 and in the second contig
+        let p = if i % 2 == 0 { (65_400 + (*ps as usize % (total - 65_400 + 200))).saturating_sub(200).min(total - 1) } else { *ps as usize % total };
+        let (ci, q) = if p < l1 { (0, p) } else { (1, p - l1) };
+        let mut nb = model::BASES[*b as usize & 3];
+        if nb == reference[ci][q] {
+            nb = model::comp(nb);
+        }
+        s0[ci][q] = nb;
+        if i % 2 == 0 {
+            s1[ci][q] = nb;
+        }
+    }
+    let case = Case { k, rc: c.rc, contigs: vec![], samples: vec![], ambig_mask: c.ambig_mask, repeat_mask: c.repeat_mask, width: Some(60), self_map: false, one_step: false };
+    (case, Mat { reference, samples: vec![("s0".to_string(), s0), ("s1".to_string(), s1)] })
+}
+
+fn check_large(lc: &LargeCase, ctx: &Ctx) -> Outcome {
+    let (c, m) = large_materialise(lc);
+    let e = expect(&c, &m);
+    let dir = ctx.case_dir();
+    let r: Result<(), Outcome> = (|| {
+        let run = run_map(ctx, &dir, &c, &m, false)?;
+        if run.refused {
+            return Err(Outcome::Fail(format!("map of a {}-base reference failed: {}", e.seqs[0].len(), run.err)));
+        }
+        for (i, (g, x)) in run.seqs.iter().zip(e.seqs.iter()).enumerate() {
+            if g != x {
+                let pos = g.iter().zip(x.iter()).position(|(a, b)| a != b).unwrap_or(g.len().min(x.len()));
+                return Err(Outcome::Fail(format!("sample {i}: output (length {}) differs from the model (length {}) first at concatenated position {pos}: got {:?} expected {:?}", g.len(), x.len(), lossy(&g[pos.saturating_sub(10)..(pos + 10).min(g.len())]), lossy(&x[pos.saturating_sub(10)..(pos + 10).min(x.len())]))));
+            }
+        }
+        Ok(())
+    })();
+    ctx.done(&dir);
+    match r {
+        Err(Outcome::Fail(msg)) => Outcome::Fail(format!("k={} rc={} content_seed={} contig_lengths=[{}, {}] snps={:?} ambig_mask={} repeat_mask={}: {msg}", c.k, c.rc, lc.content_seed, m.reference[0].len(), m.reference[1].len(), lc.snps, c.ambig_mask, c.repeat_mask)),
+        Err(o) => o,
+        Ok(()) => pass(true, key_of(&(c.k, c.rc, lc.content_seed, lc.extra, lc.second_len, &lc.snps)), vec![if m.reference[0].len() > 65536 { "first_contig>65536" } else { "total>65536" }]),
+    }
+}
+
 // ---- AlnWriter alone, in-process
 
 #[derive(Clone, Debug, Serialize, Deserialize)]
@@ -405,6 +484,7 @@ pub fn show(c: &Case) -> serde_json::Value {
 fn stages(tier: Tier) -> Vec<Box<dyn Stage>> {
     vec![
         gen_stage_show("map", RULE, tier.pick(4000, 48_000), 250, case_strategy, check, show),
+        gen_stage_show("large_reference", "generated: a random first contig of 65300-67300 bases plus a second contig of 20-600 bases (content a pure function of content_seed), two samples carrying 1-11 substitutions (half of them placed around concatenated position 65536 and in the second contig), k in {15,17,31,33}, masks; output == model for every sample. Every case non-trivial.", tier.pick(24, 400), 10, large_strategy, check_large, |c| json!({"k_index": c.k_sel % 4, "first_contig": 65_300 + c.extra as usize, "second_contig": c.second_len, "snps": c.snps.len()})),
         gen_stage_show("alnwriter", "generated: AlnWriter alone (in-process) on 1-3 contigs with an increasing list of (contig, position, symbol) matches incl. ambiguity codes, arbitrary repeat coordinates and the ambiguity mask; output == union-of-windows model. Non-trivial: >=2 matches.", tier.pick(40_000, 800_000), 1500, writer_strategy, check_writer, |c| json!({"k": c.k, "contig_lengths": c.contigs.iter().map(|x| x.len()).collect::<Vec<_>>(), "matches": c.matches.len(), "repeats": c.repeats.len()})),
     ]
 }
